@@ -6,7 +6,7 @@ import random
 from lib.tlc import MachineryError
 
 DEVS = ["Dev_C12_InputMomentum", "Dev_C12_ScaleOne", "Dev_C10_GroupSizeLost", "Dev_C10_LayerNormTarget", "Dev_C10_ScaleDtype",
-        "Dev_C09_DeepCopyQBits", "Dev_C08_ScaleDtype", "Dev_C05_CopyPlain", "Dev_C07_F16Float8Act", "Dev_C08_LayerNormNoAffine"]
+        "Dev_C09_DeepCopyQBits", "Dev_C08_ScaleDtype", "Dev_C05_CopyPlain", "Dev_C07_F16Float8Act", "Dev_C08_LayerNormNoAffine", "Dev_C07_IntMMK1"]
 INVS = ["SwapExactlyEligible", "FrozenNeverStale", "NoStaleWeights", "CalibrationScoped"]
 PROPS = ["FreezePreservesDenotation", "FrozenNoGrad", "EmaLawStep", "InferencePure", "RoundTripDenotation"]
 FOCUS = {"C08": ["all", "train"], "C09": ["freeze"], "C10": ["serial"], "C11": ["train"], "C12": ["calib"], "C13": ["calib", "all"]}
